@@ -142,7 +142,37 @@ def settings(m, meta):
         del SubI.native_anim_max_bytes
         if ITerm2Image.native_anim_max_bytes != 2 * 2**20:
             bad.append(("delete did not reset", ITerm2Image.native_anim_max_bytes))
+        # a style class whose metaclass is DERIVED from the library's: still the same single value, through every class and instance
+        class DerivedMeta(type(ITerm2Image)):
+            pass
+
+        class MetaSub(ITerm2Image, metaclass=DerivedMeta):
+            pass
+
+        class MetaSubSub(MetaSub):
+            pass
+        views = lambda: {"ITerm2Image": ITerm2Image.native_anim_max_bytes, "SubI": SubI.native_anim_max_bytes, "MetaSub": MetaSub.native_anim_max_bytes,
+                         "MetaSubSub": MetaSubSub.native_anim_max_bytes, "ITerm2Image()": ITerm2Image(img).native_anim_max_bytes,
+                         "MetaSub()": MetaSub(img).native_anim_max_bytes, "MetaSubSub()": MetaSubSub(img).native_anim_max_bytes}
+        for step, (target, value) in enumerate(((MetaSub, 777), (ITerm2Image, 888), (MetaSubSub, 999), (SubI, 555), (MetaSub, None), (MetaSubSub, 444), (ITerm2Image, None))):
+            if value is None:
+                del target.native_anim_max_bytes
+                value = 2 * 2**20
+            else:
+                target.native_anim_max_bytes = value
+            got = views()
+            if set(got.values()) != {value}:
+                bad.append((f"step {step}: native_anim_max_bytes set/unset through {target.__name__}: not one global value", value, got))
+                break
+        try:
+            MetaSub.native_anim_max_bytes = 0
+            bad.append(("invalid native_anim_max_bytes accepted through a class of a derived metaclass",))
+        except ValueError:
+            pass
     finally:
+        c_ = locals().get("DerivedMeta")
+        if c_ is not None and "_native_anim_max_bytes" in vars(c_):
+            delattr(c_, "_native_anim_max_bytes")
         ITerm2Image.native_anim_max_bytes = old
     # ---- forced_support
     class SubB(BlockImage):
